@@ -380,9 +380,9 @@ static void ex_put(const char *name, const char *val, int dirty) {
 
 /* layouts: whitespace in the four slots of a line (lead, inner-left, inner-right, trail) + CR */
 static const char vf_lay[6][5] = {
-    {0, 0, 0, 0, 0}, {' ', ' ', ' ', ' ', 0}, {0, 0, 0, 0, 1}, {'\t', '\t', '\t', '\t', 0}, {' ', 0, 0, '\t', 1}, {0, ' ', '\t', 0, 0},
+    {0, 0, 0, 0, 0}, {' ', ' ', ' ', ' ', 1}, {'\t', '\t', '\t', '\t', 0}, {0, 0, 0, 0, 1}, {' ', 0, 0, '\t', 0}, {0, ' ', '\t', 0, 0},
 };
-#define N_LAY PICK4(1, 2, 3, 6)
+#define N_LAY PICK4(1, 2, 2, 6)
 static const char *const vf_names[] = {"a", "b", "ab", "a.b", "B"};
 #define N_NAMES PICK4(2, 2, 3, 5)
 static const char *const vf_secs[] = {"a", "b", "ab", "a.b"};
@@ -729,18 +729,32 @@ static void run_member(void) {
 #error "unknown VF_MODE"
 #endif
 
-/* ------------------------------------------------------------------ the query: exhaustive case split over [VF_LO, VF_HI) */
+/* ------------------------------------------------------------------ the query: exhaustive case split over the
+ * members [VF_LO, VF_HI) or, with -DVF_LIST=i,j,k..., over the listed members */
+#ifdef VF_LIST
+static const unsigned vf_list[] = {VF_LIST};
+#define VF_NMEMB NELEM(vf_list)
+#define VF_MEMBER(k) vf_list[k]
+#else
+#define VF_NMEMB (VF_HI - VF_LO)
+#define VF_MEMBER(k) (VF_LO + (k))
+#endif
 void vf_harness(void) {
 #ifdef VF_TOTAL
     VF_ASSERT(family_total() == VF_TOTAL, HP "ini.harness.total: driver and harness agree on the size of the family");
 #endif
-    VF_ASSUME(vfin.sel >= VF_LO && vfin.sel < VF_HI);
-    for (unsigned idx = VF_LO; idx < VF_HI; idx++) {
+    for (unsigned k = 0; k < VF_NMEMB; k++) {
+        const unsigned idx = VF_MEMBER(k);
         if (vfin.sel == idx) {
             vf_x = idx;
+            VF_REACH("member");
             run_member();
             VF_ASSERT(vf_x == 0, HP "ini.harness.digits: member index fully decoded");
+#ifdef VF_LOOPBATCH
+            VF_COVER("end"); /* batch of members whose expansion may never end: the end is reachable only on a bounded _parsestr() */
+#else
             VF_REACH("end");
+#endif
 #ifdef VF_CBMC
             __CPROVER_assume(0); /* this member's path ends here: nothing to merge into the next member's state */
 #else
